@@ -9,6 +9,7 @@
    arguments (the validation rule "fields in a set can merge"). *)
 From Coq Require Import String List Bool Arith Lia.
 From GW Require Import Base.Res Base.GoStr Base.Json Gql.Syntax Gql.Spec Gw.Points Proofs.PointsProofs.
+
 Import ListNotations.
 Open Scope string_scope.
 Open Scope list_scope.
@@ -264,14 +265,53 @@ Proof. cbn [atomic_f]. induction l as [|x r IH]; intros H; [constructor|]. destr
 Lemma resolve_same w vars o rt c c' : c_name c = c_name c' -> c_args c = c_args c' -> resolve w vars o rt c = resolve w vars o rt c'.
 Proof. intros Hn Ha. unfold resolve, echoes, echo_of. rewrite Hn, Ha. reflexivity. Qed.
 
+(* the objects of the data graph (and the root, which is none of them) *)
+Definition inw (w : world) (o : option obj) : Prop :=
+  match o with Some ob => In ob (w_objs w) | None => True end.
+
+Lemma find_obj_in id : forall objs o, find_obj id objs = Some o -> In o objs.
+Proof.
+  induction objs as [|x r IH]; intros o H; cbn [find_obj] in H; [discriminate|].
+  destruct (String.eqb (b_id x) id); [injection H as <-; left; reflexivity|right; apply IH; exact H].
+Qed.
+
+(* every value the resolvers return at the root or at an object of the data graph is atomic:
+   scalars are not JSON objects or arrays *)
+Definition atomic_world (w : world) (vars : list (string * json)) : Prop :=
+  forall o rt c, inw w o -> atomic_f (resolve w vars o rt c).
+
+(* it is enough that the tables of the data graph hold atomic values *)
+Lemma lookup_atomic k : forall (m : list (string * fval)),
+  Forall (fun kv => atomic_f (snd kv)) m -> atomic_f (match lookup k m with Some x => x | None => FNull end).
+Proof.
+  induction m as [|[k' v] r IH]; intros H; cbn [lookup]; [exact I|].
+  inversion H as [|? ? Hv Hr]; subst. destruct (String.eqb k k'); [exact Hv|apply IH; exact Hr].
+Qed.
+
+Lemma atomic_world_intro w vars :
+  Forall (fun kv => atomic_f (snd kv)) (w_roots w) ->
+  Forall (fun ob => Forall (fun kv => atomic_f (snd kv)) (b_fields ob)) (w_objs w) ->
+  atomic_world w vars.
+Proof.
+  intros Hr Ho o rt c Hin. unfold resolve.
+  destruct (String.eqb (c_name c) "__typename"); [exact I|].
+  destruct o as [ob|].
+  - destruct (String.eqb (c_name c) "id"); [exact I|]. destruct (echoes w rt c); [exact I|].
+    apply lookup_atomic. rewrite Forall_forall in Ho. apply Ho. exact Hin.
+  - destruct (String.eqb rt "Query" && String.eqb (c_name c) "node").
+    + destruct (lookup "id" (c_args c)) as [a|]; [|exact I]. destruct (arg_json vars a); try exact I.
+      destruct (find_obj _ _); exact I.
+    + destruct (String.eqb (c_name c) "hello" || echoes w rt c); [exact I|]. apply lookup_atomic. exact Hr.
+Qed.
+
 Section Sound.
   Variable w : world.
   Variable frags : list fragdef.
   Variable vars : list (string * json).
-  Hypothesis world_atomic : forall o rt c, atomic_f (resolve w vars o rt c).
+  Hypothesis world_atomic : atomic_world w vars.
 
   Definition sound_at (fuel : nat) : Prop :=
-    forall o rt l1 l2, good l1 -> good l2 -> compat l1 l2 ->
+    forall o rt l1 l2, inw w o -> good l1 -> good l2 -> compat l1 l2 ->
       exec fuel w frags vars o rt (l1 ++ l2) =
       merge_value (Some (exec fuel w frags vars o rt l1)) (exec fuel w frags vars o rt l2).
 
@@ -285,7 +325,8 @@ Section Sound.
     intros Hs sub1 sub2 G1 G2 C. induction v as [|j|id|l IH] using fval_ind'; intros Ha.
     - reflexivity.
     - cbn [complete_with]. destruct j; try reflexivity; destruct Ha.
-    - cbn [complete_with]. destruct (find_obj id (w_objs w)) as [o'|]; [|reflexivity]. apply Hs; assumption.
+    - cbn [complete_with]. destruct (find_obj id (w_objs w)) as [o'|] eqn:Ef; [|reflexivity].
+      apply Hs; try assumption. cbn [inw]. eapply find_obj_in. exact Ef.
     - cbn [complete_with]. apply atomic_list in Ha.
       rewrite merge_value_arr by (rewrite !map_length; reflexivity). f_equal.
       induction l as [|x r IHr]; [reflexivity|]. cbn [map zip_merge].
@@ -295,7 +336,7 @@ Section Sound.
 
   Theorem stitch_sound : forall fuel, sound_at fuel.
   Proof.
-    induction fuel as [|fuel IH]; intros o rt l1 l2 G1 G2 C; [reflexivity|].
+    induction fuel as [|fuel IH]; intros o rt l1 l2 Hin G1 G2 C; [reflexivity|].
     rewrite !exec_unfold. rewrite merge_value_obj. f_equal.
     destruct fuel as [|f].
     - (* no fuel to collect anything *) reflexivity.
@@ -308,24 +349,24 @@ Section Sound.
                   complete_with (fun o' sub => exec (S f) w frags vars (Some o') (b_type o') sub) w (c_sub c) (resolve w vars o rt c)).
       change (E V (fold_left (fun a s => add_c (to_c s) a) l2 (map to_c l1)) = merge_obj (E V (map to_c l1)) (E V (map to_c l2))).
       apply fold_is_merge; [exact N2|].
-      intros c s2 Hs2 Hf. apply find_c_in in Hf. destruct Hf as [Hin Hk].
-      apply in_map_iff in Hin. destruct Hin as [s1 [<- Hs1]]. cbn [to_c c_key] in Hk.
+      intros c s2 Hs2 Hf. apply find_c_in in Hf. destruct Hf as [Hinc Hk].
+      apply in_map_iff in Hinc. destruct Hinc as [s1 [<- Hs1]]. cbn [to_c c_key] in Hk.
       inversion C as [? ? HC]; subst. destruct (HC s1 s2 Hs1 Hs2 Hk) as (En & Ea & Cs).
       unfold V, ext. cbn [to_c c_key c_name c_args c_sub].
       rewrite (resolve_same w vars o rt _ (to_c s1)) by reflexivity.
       rewrite (resolve_same w vars o rt (to_c s2) (to_c s1)) by (cbn [to_c c_name c_args]; congruence).
       rewrite Forall_forall in S1, S2.
-      apply (complete_app (S f) IH); [apply S1; exact Hs1|apply S2; exact Hs2|exact Cs|apply world_atomic].
+      apply (complete_app (S f) IH); [apply S1; exact Hs1|apply S2; exact Hs2|exact Cs|apply world_atomic; exact Hin].
   Qed.
 
   (* ... in the executor's own terms: stitching the answer to the second selection set at the root
      of the answer to the first (executorInsertObject with an empty path) is the answer to both *)
   Corollary stitch_at_root fuel o rt l1 l2 :
-    good l1 -> good l2 -> compat l1 l2 ->
+    inw w o -> good l1 -> good l2 -> compat l1 l2 ->
     insert_object (exec (S fuel) w frags vars o rt l1) [] (exec (S fuel) w frags vars o rt l2) =
     Ok (exec (S fuel) w frags vars o rt (l1 ++ l2)).
   Proof.
-    intros G1 G2 C. rewrite (stitch_sound (S fuel) o rt l1 l2 G1 G2 C).
+    intros Hin G1 G2 C. rewrite (stitch_sound (S fuel) o rt l1 l2 Hin G1 G2 C).
     rewrite !exec_unfold. rewrite merge_value_obj. reflexivity.
   Qed.
 
@@ -333,13 +374,13 @@ Section Sound.
      answer to l1 for some object, stitching the answer to l2 for that object at p makes it hold the
      answer to both there (every point that parts ways with p is untouched: insert_frame) *)
   Corollary stitch_at_point fuel o rt l1 l2 p acc acc' :
-    good l1 -> good l2 -> compat l1 l2 -> p <> [] ->
+    inw w o -> good l1 -> good l2 -> compat l1 l2 -> p <> [] ->
     extract_value p acc = Ok (exec (S fuel) w frags vars o rt l1) ->
     insert_object acc p (exec (S fuel) w frags vars o rt l2) = Ok acc' ->
     extract_value p acc' = Ok (exec (S fuel) w frags vars o rt (l1 ++ l2)).
   Proof.
-    intros G1 G2 C Hp Hold Hins.
-    rewrite (stitch_sound (S fuel) o rt l1 l2 G1 G2 C).
+    intros Hin G1 G2 C Hp Hold Hins.
+    rewrite (stitch_sound (S fuel) o rt l1 l2 Hin G1 G2 C).
     rewrite exec_unfold in Hins. rewrite exec_unfold in Hold.
     match type of Hins with insert_object _ _ (JObj ?src) = _ =>
       destruct (insert_then_extract p acc (JObj src) acc' src Hp eq_refl Hins) as [tgt [A B]] end.
@@ -347,14 +388,18 @@ Section Sound.
   Qed.
 End Sound.
 
-(* non-vacuity: two services' parts of one selection on a small data graph *)
+(* non-vacuity: two services' parts of one selection on a small data graph whose values are atomic *)
 Example stitch_sound_example :
   let w := {| w_objs := [{| b_id := "u1"; b_type := "User"; b_fields := [("name", FScalar (JStr "ann")); ("photo", FScalar (JStr "p.png"));
                                                                            ("friends", FList [FRef "u1"])] |}];
               w_roots := [("Query.me", FRef "u1")]; w_possible := []; w_ftypes := [] |} in
   let l1 := [Field "me" "me" [] [] [Field "name" "name" [] [] []; Field "friends" "friends" [] [] [Field "name" "name" [] [] []]]] in
   let l2 := [Field "me" "me" [] [] [Field "photo" "photo" [] [] []; Field "friends" "friends" [] [] [Field "photo" "photo" [] [] []]]] in
+  atomic_world w [] /\
   insert_object (exec 6 w [] [] None "Query" l1) [] (exec 6 w [] [] None "Query" l2) = Ok (exec 6 w [] [] None "Query" (l1 ++ l2)) /\
   exec 6 w [] [] None "Query" (l1 ++ l2) =
     JObj [("me", JObj [("name", JStr "ann"); ("friends", JArr [JObj [("name", JStr "ann"); ("photo", JStr "p.png")]]); ("photo", JStr "p.png")])].
-Proof. vm_compute. split; reflexivity. Qed.
+Proof.
+  cbv zeta. split; [|vm_compute; split; reflexivity].
+  apply atomic_world_intro; cbn; repeat constructor.
+Qed.
